@@ -382,6 +382,40 @@ pub fn run(ctx: &Ctx) -> i32 {
             }
         });
         col.layer("REAL values incl. NaN, inf, signed zeros (all permutations)", done, complete, json!({"lines": rlines, "statements": rst}));
+        // REAL values whose partial sums are all exact (multiples of 0.25): SUM and AVG must be the same f64, bit for bit,
+        // for every order of the lines (the mean itself is not representable, so a running mean would show)
+        let elines = ["k=a x=0.25", "k=a x=1.5", "k=a x=7.75", "k=a x=100.25", "k=a x=2.0", "k=a x=0.5", "k=a x=18.75"];
+        let est = ["SELECT k, AVG(x), SUM(x), COUNT(*) FROM g GROUP BY k", "SELECT AVG(x), AVG(x * 3.0), SUM(x) FROM g"];
+        let total = (perms.len() * est.len()) as u64;
+        let ebases: Vec<Option<Vec<Vec<RVal>>>> = est.iter().map(|s| match sut::run_batch(&rt, &sut::parse(s).unwrap(), &elines) { Outcome::Ok(t) => Some(t.rows), _ => None }).collect();
+        let exact = |a: &Vec<Vec<RVal>>, b: &Vec<Vec<RVal>>| format!("{:?}", rows_json(a)) == format!("{:?}", rows_json(b)) && a.len() == b.len() && a.iter().zip(b).all(|(x, y)| crate::refmodel::tuple_eq(x, y));
+        let (done, complete) = par_for_budget(ctx, total, 64, |idx| {
+            let si = idx as usize % est.len();
+            let perm = &perms[idx as usize / est.len()];
+            col.eval(1);
+            col.nontrivial(h64(&("real-exact", si, perm)));
+            let lines: Vec<&str> = perm.iter().map(|i| elines[*i]).collect();
+            let got = match sut::run_batch(&rt, &sut::parse(est[si]).unwrap(), &lines) {
+                Outcome::Ok(t) => Some(t.rows),
+                _ => None,
+            };
+            let same = match (&ebases[si], &got) {
+                (Some(a), Some(b)) => exact(a, b),
+                (None, None) => true,
+                _ => false,
+            };
+            if !same || got.is_none() {
+                col.fail(fail(
+                    format!("order-dependent:real-exact-sums:{}", si),
+                    format!("`{}` over REAL values with exact partial sums: result for line order {:?} differs (bit for bit) from the result for the original order", est[si], perm),
+                    json!({"law": "real-exact", "stmt": si, "statement": est[si], "perm": perm, "history": []}),
+                    json!(ebases[si].as_ref().map(|r| rows_json(r))),
+                    json!(got.as_ref().map(|r| rows_json(r))),
+                    perm.len() as u64,
+                ));
+            }
+        });
+        col.layer("REAL values with exact partial sums, AVG / SUM bit for bit (all permutations)", done, complete, json!({"lines": elines, "statements": est}));
     }
     // file order: the result over files [a, b] equals the result over [b, a] also when a file starts with a byte order
     // mark, a blank line or a CR-terminated line
